@@ -72,3 +72,12 @@ def shrink_candidates(c):
             d = dict(c); d["ops"] = ops[:lo] + ops[hi:]; yield d
     for i in range(n):
         d = dict(c); d["ops"] = ops[:i] + ops[i + 1:]; yield d
+
+LEVEL_TEXT = ("Seven theorems (Props/C12.v) over EVERY history of put/get/delete/clear/size/stats/keys/cleanup calls with non-decreasing time stamps, "
+              "every capacity and lifetime, on the executable model Model/Lru.v: capacity bound and one entry per key; eviction of exactly the least "
+              "recently touched entry; ghost fields follow the history; a hit returns the last stored value; never a value older than the lifetime; "
+              "sweeps remove only expired entries; statistics are exact. The model is tied to internal/cache/lru_cache.go on every run: generated "
+              "histories run on the real LRUCache and Coq re-evaluates the model on them (vm_compute), every return value compared.")
+LEVEL_NOTE = ("Trusted: Coq kernel + vm_compute; no axioms (Print Assumptions: closed). The model is hand-written; the tie is differential "
+              "(sampled histories), not a proof about the Go binary. time.Now assumed monotone; sequential use only (concurrency is C11).")
+TECHNIQUE = "Coq proof by invariant induction over operation histories + differential correspondence (vm_compute)"
